@@ -876,6 +876,9 @@ class Interp:
             a = a.const_value()
         if isinstance(b, Poly) and b.is_const():
             b = b.const_value()
+        if (a is None or b is None) and isinstance(op, (ast.Eq, ast.NotEq)):
+            r = (a is None and b is None)
+            return r if isinstance(op, ast.Eq) else not r
         ok = (int, Fraction, str, bool)
         if isinstance(a, Obj) or isinstance(b, Obj):
             if isinstance(op, ast.Eq):
@@ -1108,6 +1111,9 @@ class Interp:
                 v = v.const_value()
             if isinstance(v, (int, Fraction)):
                 return int(v)     # truncation toward zero, like int()
+            if isinstance(v, Poly) and len(v.symbols()) >= 1 and all(
+                    c.denominator == 1 for c in v.t.values()):
+                return v          # symbolic integer quantity
             raise Unsupported("int() of non-number", node)
         if n == "float":
             return args[0]
